@@ -22,6 +22,10 @@ case "$pkg" in
   *) DDIR=.;;
 esac
 DEMOF="$DDIR/zz_demo_${NAME//-/_}_test.go"
+if [ -n "${SKIP_CONFIRM:-}" ]; then
+  # regression of changes that were confirmed when they were kept: apply and go straight to the check
+  if ! git apply "$PATCH" 2>"$W/apply.log" && ! git apply -3 "$PATCH" 2>>"$W/apply.log"; then res "INVALID patch-does-not-apply"; cleanup; exit 3; fi
+else
 # demo on clean tree must pass
 cp "$DEMO" "$DEMOF"
 if ! go test -vet=off -count=1 ./$DDIR/ > "$W/demo_clean.log" 2>&1; then res "INVALID demo-fails-on-clean-tree"; cleanup; exit 3; fi
@@ -32,6 +36,7 @@ if ! go test -vet=off -count=1 ./... > "$W/suite.log" 2>&1; then res "INVALID ex
 cp "$DEMO" "$DEMOF"
 if go test -vet=off -count=1 ./$DDIR/ > "$W/demo_mut.log" 2>&1; then res "INVALID demo-passes-with-patch"; cleanup; exit 3; fi
 rm -f "$DEMOF"
+fi
 # harness against the mutated copy
 HD="${HARNESS_DIR:-/verif/harness}"
 sed "s#=> /repo#=> $W/repo#" "$HD/go.mod" > "$W/harness.mod"
